@@ -56,7 +56,7 @@ func (r *registrar) QueryServantBySet(ctx context.Context, id, set string) ([]re
 
 type phase struct {
 	from, to time.Duration
-	mode     string // healthy | silent | refusing
+	mode     string // healthy | silent | refusing | flaky | late
 }
 
 type node struct {
@@ -150,7 +150,7 @@ func (s *S) Run(c *scen.Ctx) {
 		for k := 0; k < nph; k++ {
 			t += time.Duration(1+simrt.Draw(40, "c15.gap")) * time.Second
 			d := []time.Duration{2 * time.Second, 4 * time.Second, 6 * time.Second, 12 * time.Second, 33 * time.Second, 45 * time.Second, 70 * time.Second, 100 * time.Second}[simrt.Draw(8, "c15.dur")]
-			mode := []string{"silent", "refusing", "silent", "flaky"}[simrt.Draw(4, "c15.mode")]
+			mode := []string{"silent", "refusing", "silent", "flaky", "late"}[simrt.Draw(5, "c15.mode")]
 			n.phases = append(n.phases, phase{t, t + d, mode})
 			c.Count("fault.phase_"+mode, 1)
 			t += d
@@ -191,6 +191,11 @@ func (s *S) Run(c *scen.Ctx) {
 		srv, err := world.StartServer(n.addr, func(sc *world.SrvConn, req *refcodec.Request, raw []byte) {
 			switch n.modeAt(simrt.Elapsed()) {
 			case "silent":
+				return
+			case "late": // overloaded: every answer comes after the caller has given up
+				d := time.Duration(s.timeout)*time.Millisecond + time.Duration(20+simrt.Draw(600, "c15.lateby"))*time.Millisecond
+				rsp := world.Echo(req)
+				simrt.Go(func() { simrt.Sleep(d); sc.Reply(rsp) })
 				return
 			case "flaky": // answers about every other request: failures interleaved with successes
 				if simrt.Draw(2, "c15.flaky") == 1 {
